@@ -53,6 +53,17 @@ r[1] is not None`, which also drops real revisions whose revno is None
 def reverseByDepth (l : List V) : Option (List V) :=
   (rbd (rbdFuel l) 0 l).map fun r => r.filter fun v => !v.revno.isEmpty
 
+/-- the list is a forest in pre-order starting at depth `d`: it is empty or starts at depth `d`, and what
+follows each revision of depth `d` up to the next one is such a forest at depth `d + 1` (every merge-sorted
+view of a whole branch has this shape at depth 0) -/
+def wellNestedAux : Nat → Nat → List V → Bool
+  | 0, _, _ => false
+  | fuel + 1, d, l =>
+    let r := chunk d l
+    r.1.isEmpty && r.2.all fun c => c.2.isEmpty || wellNestedAux fuel (d + 1) c.2
+
+def wellNested (l : List V) : Bool := wellNestedAux (rbdFuel l) 0 l
+
 /-! ## _rebase_merge_depth -/
 
 def minDepth : List V → Nat
